@@ -66,6 +66,29 @@ def run(repo):
             res.fail(Finding(RULE, fi.fq, 'section %s' % section,
                              'lp_export: the `%s` section is not (only) emitted for the columns with '
                              'vtype == \'%s\'' % (section, letter), repo.where(fi), P))
+    # (e) the Bounds section has one line per column, unconditionally
+    bloops = []
+    for n in walk_no_nested(fi.node):
+        if isinstance(n, ast.For):
+            strs = ' '.join(_str_consts(ast.Module(body=n.body, type_ignores=[])))
+            if '<= x{} <=' in strs.replace('  ', ' '):
+                bloops.append(n)
+    if len(bloops) != 1:
+        raise AnalysisError('lp_export: the loop writing the Bounds section was not found')
+    bl = bloops[0]
+    cond = [x for x in ast.walk(ast.Module(body=bl.body, type_ignores=[]))
+            if isinstance(x, (ast.If, ast.Continue, ast.Break, ast.IfExp))]
+    over_all = 'nvar' in ntext(bl.iter) or 'len(' in ntext(bl.iter) or 'shape[1]' in ntext(bl.iter)
+    ok = not cond and over_all and any(is_self_attr(x, 'ub') or ntext(x) == 'ub' for x in ast.walk(bl)) \
+        and any(is_self_attr(x, 'lb') or ntext(x) == 'lb' for x in ast.walk(bl))
+    res.inst({'lp_export': 'Bounds section', 'unconditional_line_per_column': ok}, ok)
+    if not ok:
+        res.fail(Finding(RULE, fi.fq, 'Bounds section conditional',
+                         'lp_export writes the bound line of a column only under a condition (%s): bounds '
+                         'the user put on the skipped columns (e.g. on binaries) are missing from the file, '
+                         'which then describes a relaxation of the solved program'
+                         % (ntext(cond[0])[:50] if cond else 'loop does not range over all columns'),
+                         repo.where(fi, bl), P))
     # (b)
     f2 = repo.func('socp.SOCProg.lp_export')
     res.functions.add(f2.fq)
